@@ -1566,7 +1566,9 @@ impl<T: PackedInt> IntVec<T> {
         let bits_needed = bit_in_byte + bits as usize;
         let bytes_needed = (bits_needed + 7) / 8;
 
-        if byte_offset + bytes_needed <= data.len() && bytes_needed <= 8 {
+        // The fast path loads and stores a whole u64 at byte_offset, so all 8 bytes must lie
+        // inside the buffer (not just the bytes_needed ones) - otherwise use the safe writer
+        if bytes_needed <= 8 && byte_offset + 8 <= data.len() {
             // Fast unaligned write using hardware acceleration
             let data_ptr = unsafe { data.as_mut_ptr().add(byte_offset) };
             let current = unsafe { UnalignedOps::read_u64_unaligned(data_ptr) };
